@@ -179,14 +179,12 @@ func checkKeyDerivation(w *stateless.Witness, items []item) {
 // ---------------------------------------------------------------------------------------
 
 type runner struct {
-	sum       *tl.Summary
-	tr        *tl.Trace
-	detail    int // number of blocks whose removal runs are logged read by read
-	detailed  int
-	maxRm     int
-	pendingOK bool
-	pending   []any
-	shapes    map[string]bool
+	sum      *tl.Summary
+	tr       *tl.Trace
+	detail   int // number of blocks whose removal runs are logged read by read
+	detailed int
+	maxRm    int
+	shapes   map[string]bool
 }
 
 func (rn *runner) block(k *blockkit.Kit, bc *core.BlockChain, blk *types.Block, kinds []string, variant string, label string) {
@@ -223,7 +221,7 @@ func (rn *runner) block(k *blockkit.Kit, bc *core.BlockChain, blk *types.Block, 
 	}
 	same := err == nil && root == blk.Root() && rroot == blk.ReceiptHash()
 	rn.tr.Emit(tl.M{"op": "reset", "n": len(items), "label": label})
-	rn.tr.Emit(tl.M{"op": "begin", "removed": 0})
+	rn.tr.Emit(tl.M{"op": "begin", "removed": 0, "kind": "none"})
 	readSet := map[int]bool{}
 	evReads := func(reads []spyRead) {
 		for _, rd := range reads {
@@ -285,7 +283,7 @@ func (rn *runner) block(k *blockkit.Kit, bc *core.BlockChain, blk *types.Block, 
 				touched = true
 			}
 		}
-		rn.tr.Emit(tl.M{"op": "begin", "removed": ix + 1})
+		rn.tr.Emit(tl.M{"op": "begin", "removed": ix + 1, "kind": it.kind})
 		if detail {
 			for _, rd := range reads2 {
 				if i, known := id[rd.key]; known {
@@ -319,14 +317,12 @@ func (rn *runner) block(k *blockkit.Kit, bc *core.BlockChain, blk *types.Block, 
 				label, it.kind, ix+1, needed[ix+1], root2, blk.Root(), rroot2, blk.ReceiptHash())
 			rep := tl.M{"label": label, "kinds": kinds, "item": ix + 1, "kind": it.kind, "needed": needed[ix+1], "block": blk.NumberU64(),
 				"read_of_removed_item_missed": touched}
-			if touched && rn.pendingOK {
-				// TODO-KNOWN-FINDING (C34): ExecuteStateless ignores StateDB.Error(); a run whose witness-database
-				// read failed returns err=nil and a different root.  Exactly this fingerprint (the run's reads
-				// contain a miss on the removed item, no error, different result) is reported as pending, not
-				// as a violation, until the coordinator has decided on the candidate defect.
-				add(sum, "pending-ignored-db-error/"+it.kind, 1)
-				if len(rn.pending) < 3 {
-					rn.pending = append(rn.pending, tl.M{"desc": desc, "replay": rep})
+			if it.kind == "header" && touched {
+				// Outside the property text (trie nodes and code): a missing ANCESTOR HEADER makes BLOCKHASH
+				// yield zero silently. Recorded as an observation, see NOTES.md.
+				add(sum, "observation/header-removed-different-root", 1)
+				if _, ok := sum.Extra["header_gap_example"]; !ok {
+					sum.Extra["header_gap_example"] = tl.M{"desc": desc, "replay": rep}
 				}
 			} else {
 				sum.Violate(desc, rep)
@@ -356,14 +352,13 @@ func main() {
 	detail := flag.Int("detail", 2, "blocks whose removal runs are logged read by read")
 	maxRm := flag.Int("maxrm", 0, "cap on removals per block (0 = every item)")
 	schemes := flag.String("schemes", "hash", "state schemes of the importing chain")
-	strict := flag.Bool("strict", false, "report the known ignored-db-error deviation as a violation")
 	flag.Parse()
 	log.SetDefault(log.NewLogger(log.DiscardHandler()))
 	seed := int64(tl.EnvInt("VERIF_SEED", 1))
 	sum := tl.NewSummary("c34", *mode, seed)
 	installHook()
 	tr := tl.NewTrace(*trace)
-	rn := &runner{sum: sum, tr: tr, detail: *detail, maxRm: *maxRm, shapes: map[string]bool{}, pendingOK: !*strict}
+	rn := &runner{sum: sum, tr: tr, detail: *detail, maxRm: *maxRm, shapes: map[string]bool{}}
 	for fi, fork := range strings.Split(*forks, ",") {
 		for _, scheme := range strings.Split(*schemes, ",") {
 			k := blockkit.New(fork, 6, nil)
@@ -397,7 +392,6 @@ func main() {
 	}
 	tr.Close()
 	sum.Distinct = len(rn.shapes)
-	sum.Extra["pending"] = rn.pending
 	sum.Rule = "random interacting blocks per fork; stateless run on the complete witness and on the witness minus each single item (trie node, code, ancestor header); distinct = distinct (fork, item kind, outcome class) combinations observed"
 	sum.Write(*out)
 	_ = bytes.Equal
